@@ -24,7 +24,7 @@ for x in r['results']:
     status = x['status']
     if status == 'caught':
         cell = '; '.join(caught)
-    elif status == 'missed' and x.get('assessment'):
+    elif status.lower() == 'missed' and x.get('assessment'):
         cell = '*missed - expected: outside what the property states or beyond a stated limit (see its meta.json and section 11)*'
     else:
         cell = '*%s*' % status.split(':')[0]
